@@ -73,6 +73,16 @@ FRAMES += [
     "def f():\n    {v} = 1\n\n    class Local:\n        {w} = {v} + 1\n\n        def get(self):\n            return {v}, self.{w}\n\n    return Local().get()\n\n\nprint(f())\n",
 ]
 
+FRAMES += [
+    # equivalent functions where the name of the one that is kept, or of the one that is removed, is also bound in another way
+    "def {v}(a):\n    return a + 1\n\n\ndef {w}(a):\n    return a + 1\n\n\ndef use({v}):\n    return {w}({v})\n\n\nprint(use(3), {v}(1))\n",
+    "def {v}(a):\n    return a + 1\n\n\ndef {w}(a):\n    return a + 1\n\n\ndef use({w}):\n    return {v}({w})\n\n\nprint(use(3), {w}(1))\n",
+    "def {v}(a):\n    return a + 1\n\n\ndef {w}(a):\n    return a + 1\n\n\ndef use(x):\n    {v} = x * 2\n    return {w}({v})\n\n\nprint(use(3), {v}(1))\n",
+    "def {v}(a):\n    return a + 1\n\n\ndef {w}(a):\n    return a + 1\n\n\nprint({v}(1))\n\n\ndef {v}(a):\n    return a * 10\n\n\nprint({w}(2), {v}(2))\n",
+    "def {v}(a):\n    return a + 1\n\n\ndef {w}(a):\n    return a + 1\n\n\ndef use(x):\n    try:\n        raise ValueError(x)\n    except ValueError as {v}:\n        return {w}(len(str({v})))\n\n\nprint(use(3), {v}(1))\n",
+    "import math as {v}\n\n\ndef {w}(a):\n    return a + 1\n\n\ndef {u}(a):\n    return a + 1\n\n\ndef use(x):\n    from os import sep as {w}\n    return {u}(len({w})) + x\n\n\nprint(use(3), {w}(1), {v}.floor(1.5))\n",
+]
+
 RULES = ["fixes.align_variable_names_with_convention", "fixes.undefine_unused_variables", "fixes.remove_duplicate_functions", "object_oriented.move_staticmethod_static_scope", "format_code"]
 
 
